@@ -1920,6 +1920,74 @@ theorem core_atoms_eq_sum_components (ph : Phys) (r : Core) (n : Nuc) (h : CoreO
     apply sumBy_congr; intro b hbm
     exact (block_atoms_eq_sum_components ph b n ((ha a ham).2.2.2 b hbm)).symm
 
+/-! ### every depth at once: the contract of one level, by induction on the nesting depth -/
+
+def LvlWF (ph : Phys) : (d : Nat) → Lvl d → Prop
+  | 0 => fun _ => True
+  | d + 1 => NodeWF (lvlOps ph d) (LvlWF ph d)
+
+/-- **the setter/getter contract holds at every nesting depth** (induction on the depth; `nodeLawful` is the step) -/
+theorem lvlLawful (ph : Phys) : ∀ d, Lawful (lvlOps ph d) ph (LvlWF ph d)
+  | 0 => compLawful ph
+  | d + 1 => nodeLawful _ ph _ (lvlLawful ph d)
+
+theorem lvlLawfulUpd (ph : Phys) : ∀ d, LawfulUpd (lvlOps ph d) (LvlWF ph d)
+  | 0 => compLawfulUpd ph
+  | d + 1 => nodeLawfulUpd _ ph _ (lvlLawful ph d) (lvlLawfulUpd ph d)
+
+/-- **`setNumberDensity` reads back and frames at any depth** -/
+theorem lvl_setND (ph : Phys) (d : Nat) (a : Lvl d) (n m : Nuc) (v : Rat) (hwf : LvlWF ph d a)
+    (hn : (lvlOps ph d).has a n = true) (hcan : (lvlOps ph d).canSet a n v = true) :
+    (lvlOps ph d).nd ((lvlOps ph d).setND a n v) n = v ∧
+    (m ≠ n → (lvlOps ph d).nd ((lvlOps ph d).setND a n v) m = (lvlOps ph d).nd a m) ∧
+    (lvlOps ph d).vol ((lvlOps ph d).setND a n v) = (lvlOps ph d).vol a :=
+  ⟨setND_readback (lvlLawful ph d) a n v hwf hn hcan,
+   fun hm => setND_frame (lvlLawful ph d) a n m v hwf hm,
+   (lvlLawful ph d).set_vol a n v⟩
+
+/-- **`updateNumberDensities` reads back and frames at any depth** -/
+theorem lvl_updND (ph : Phys) (d : Nat) (a : Lvl d) (u : NDens) (n : Nuc) (hwf : LvlWF ph d a)
+    (hcan : (lvlOps ph d).canUpd a u = true) (hd : NodupKeys u) :
+    (NDens.has u n = true → (lvlOps ph d).nd ((lvlOps ph d).upd a u) n = NDens.get u n) ∧
+    (NDens.has u n = false → (lvlOps ph d).nd ((lvlOps ph d).upd a u) n = (lvlOps ph d).nd a n) :=
+  ⟨fun hn => updND_readback (lvlLawfulUpd ph d) a u n hwf hcan hd hn,
+   fun hn => updND_frame (lvlLawfulUpd ph d) a u n hwf hd hn⟩
+
+/-- **mass of one nuclide = density × A / K × (mass-carrying volume) at any depth** -/
+theorem lvl_mass (ph : Phys) (d : Nat) (a : Lvl d) (n : Nuc) (hwf : LvlWF ph d a) :
+    (lvlOps ph d).mass a n = (lvlOps ph d).nd a n * ph.aw n / ph.K * (lvlOps ph d).evol a :=
+  (lvlLawful ph d).mass_eq a n hwf
+
+/-- **`setMassFracs` at any depth**: listed fractions read back, total density unchanged -/
+theorem lvl_setMassFracs (ph : Phys) (d : Nat) (a : Lvl d) (mf : NDens)
+    (h : SmfOK (lvlOps ph d) ph (LvlWF ph d) a mf) (n : Nuc) (hn : NDens.has mf n = true) :
+    NDens.get (massFracs (lvlOps ph d) ph (setMassFracs (lvlOps ph d) ph a mf)) n = NDens.get mf n ∧
+    density (lvlOps ph d) ph (setMassFracs (lvlOps ph d) ph a mf) = density (lvlOps ph d) ph a :=
+  ⟨setMassFracs_readback (lvlLawful ph d) a mf h n hn, setMassFracs_total_density (lvlLawful ph d) a mf h⟩
+
+/-- the three named levels are depths 1, 2, 3 -/
+example (ph : Phys) : lvlOps ph 1 = blockOps ph ∧ lvlOps ph 2 = assemOps ph ∧ lvlOps ph 3 = coreOps ph :=
+  ⟨rfl, rfl, rfl⟩
+
+/-! ### volume fractions with NEGATIVE children (overlapping components: a gap whose inner boundary has passed its
+outer one). No theorem of this file assumes a child volume positive — only the sums that are divided by are non-zero. -/
+
+/-- **`getVolumeFractions()` sums to one for signed volumes** (each fraction is `V_child / Σ V`, negative for a
+negative child) -/
+theorem volFrac_sum_one {α : Type} (o : Ops α) (p : Node α) (hv : sumBy o.vol p.kids ≠ 0) :
+    sumBy (p.volFrac o) p.kids = 1 := volFrac_sum o p hv
+
+/-- a block with a negative gap: fractions 6/5, −1/5 (sum 1), and the homogenised density weights by the signed
+volumes: `N·ΣV = Σ V_c N_c` -/
+example : sumBy (Node.volFrac (compOps ⟨1, 1, fun _ => 1⟩) ⟨1, none, [⟨6, 1, [(1, 2)]⟩, ⟨-1, 1, []⟩]⟩)
+    [⟨6, 1, [(1, 2)]⟩, ⟨-1, 1, []⟩] = 1 :=
+  volFrac_sum_one _ _ (by norm_num [sumBy, compOps])
+
+example : Node.nd (compOps ⟨1, 1, fun _ => 1⟩) ⟨1, none, [⟨6, 1, [(1, 2)]⟩, ⟨-1, 1, []⟩]⟩ 1 *
+    sumBy (compOps ⟨1, 1, fun _ => 1⟩).vol [⟨6, 1, [(1, 2)]⟩, ⟨-1, 1, []⟩] = 12 := by
+  rw [atoms_additive _ _ _ (by norm_num) (by norm_num [sumBy, compOps])]
+  norm_num [sumBy, compOps, NDens.get]
+
 /-! ### the symmetry factor the volume weights divide by is never zero -/
 
 /-- **`HexBlock.getSymmetryFactor()` is 1, 2 or 3** — so the hypothesis `sym ≠ 0` of the additivity theorems is
